@@ -132,6 +132,9 @@ def judge_file(r, path, rows, props, res, maxviol=8):
                 "asks": begin["asks"], "root": begin["root"], "c06": begin.get("c06", False),
                 "key": case_key(begin), "grammar": gtext(begin["G"]), "input": wtext(begin["w"]),
                 "rejected_event": rows[k0], "props": props}
+        if rows[k0].get("ev") == "mutation":
+            case["mutation"] = {"n": rows[k0].get("n"), "pos": rows[k0].get("pos"), "at_return": rows[k0].get("at_return"), "now": rows[k0].get("now")}
+            case["key"] = case["key"] + "-m"
         if r.violation(case, "%s on grammar [%s] input %r" % (msg or "property predicate false", gtext(begin["G"]), wtext(begin["w"]))):
             res["violations"] += 1
         n += 1
@@ -349,3 +352,32 @@ def run_plan(r, plan):
     r.extra["skipped_budget"] = sum((f.get("replay") or {}).get("skipped_budget", 0) for f in fam_stats) + \
         sum(x["result"]["skipped_budget"] for x in rnd_stats)
     r.exhaustive = all(f["slice"] == "0/1" for f in fam_stats) and all(f["runs_cut_by_budget"] == 0 for f in fam_stats)
+
+
+def _only_ends_moved(a, b):
+    """two rendered tree lists that differ only in END positions (index 2 of a tree), ends never moving left"""
+    if isinstance(a, list) and isinstance(b, list):
+        if len(a) != len(b):
+            return False
+        if len(a) >= 3 and isinstance(a[0], str) and a[0] in ("T", "N", "E", "EOF") and isinstance(a[1], int):
+            if a[0] != b[0] or a[1] != b[1] or not (isinstance(b[2], int) and b[2] >= a[2]):
+                return False
+            return all(_only_ends_moved(x, y) for x, y in zip(a[3:], b[3:]))
+        return all(_only_ends_moved(x, y) for x, y in zip(a, b))
+    return a == b
+
+
+def matcher_rtrim_moves_end(case):
+    """known finding D7: text.RightTrim moves the end position of the node(s) its operand returned IN PLACE
+    (ast.SetReaderPos), so a memoised result that is also used untrimmed is changed after it was returned.
+    Matches only: the grammar contains a RightTrim, and the recorded mutation moved end positions and nothing else."""
+    G = case.get("G") or []
+    if not any(n.get("k") == "rtrim" for n in G):
+        return False
+    m = (case.get("detail") or {}).get("mutation") or case.get("mutation")
+    if not m:
+        return False
+    return m.get("at_return") != m.get("now") and _only_ends_moved(m.get("at_return"), m.get("now"))
+
+
+core.MATCHERS["rtrim_moves_end"] = matcher_rtrim_moves_end
